@@ -9,7 +9,7 @@ PID = "C08"
 TIERS = {
     # mc: Required-variant runs of the design model; tables: seeded generated tables;
     # gen: (MaxLines, KeyIds) of the exhaustive TLC-enumerated small tables; corpus: (files, windows, residues)
-    "quick":    dict(mc=["MC_AtomTable_quick.cfg", "MC_AtomTable_null.cfg"], tables=60, gen=(2, "{1, 2, 3}"),
+    "quick":    dict(mc=["MC_AtomTable_quick.cfg", "MC_AtomTable_null.cfg"], tables=300, gen=(2, "{1, 3}"),
                      corpus=(5, 1, 2)),
     "thorough": dict(mc=["MC_AtomTable_thorough.cfg", "MC_AtomTable_deep.cfg", "MC_AtomTable_null.cfg",
                          "MC_AtomTable_nullwide.cfg"], tables=9000, gen=(3, "{1, 3}"), corpus=(11, 2, 3)),
@@ -79,13 +79,21 @@ def run(tier):
                     for cfg, inv, why in NEG]
 
         # spec -> code: exhaustive small tables from TLC; seeded feature tables; corpus-derived tables
+        import time
+        t0 = time.time()
+        phase = {}
         small = gen_small_tables(t["gen"][0], t["gen"][1], sc)
+        phase["gen_s"] = round(time.time() - t0, 1)
         tables = at.gen_tables(t["tables"], lib.seed())
         nfiles, nwin, nres = t["corpus"]
         corpus = at.corpus_tables(at.CORPUS_C08[:nfiles], nwin, nres, lib.seed())
         cases = at.c08_cases(small + tables + corpus)
+        t1 = time.time()
         rec = lib.pmap(at.record_c08, cases)
+        phase["record_s"] = round(time.time() - t1, 1)
+        t1 = time.time()
         skipped = validate(rep, rec, sc, "C08")
+        phase["validate_s"] = round(time.time() - t1, 1)
         bad_skip = [i for i in skipped if not i.startswith("corpus-")]
         if bad_skip:
             raise lib.MachineryError(f"generated tables outside the spec's domain (generator defect): {bad_skip[:5]}")
@@ -95,6 +103,8 @@ def run(tier):
         for cfg, inv, why, job in neg_jobs:
             rep.add_mc(job.result(), why, negative_control=True)
         pool.shutdown()
+        phase["total_s"] = round(time.time() - t0, 1)
+        rep.cov["phase_wall_s"] = phase
 
         cov = rep.cov
         allt = small + tables + corpus
